@@ -13,8 +13,9 @@ RULE = ("programs (<=45 steps) over two files holding objects of every interface
         "annotation, SD file, dataset, dimension) in arbitrary order incl. nested opens of one path with different "
         "modes and Hclose with attached access elements, interleaved with *uses* whose identifier argument is drawn "
         "from: a live id of the right kind, a live id of another kind/interface/file, an id already released (double "
-        "release, use after release), or a never-issued integer (-1, 0, small, neighbours of live ids, high "
-        "bit patterns). Oracle: liveness model keyed by variable: a use with a non-live or wrong-kind id must return "
+        "release, use after release), or a never-issued integer (-1, 0, small, high "
+        "bit patterns); access elements are opened on plain, linked-block, compressed and external elements, several "
+        "at once on one element. Oracle: liveness model keyed by variable: a use with a non-live or wrong-kind id must return "
         "the function's failure value (functions on the must-reject list), never crash; a use with a live id must "
         "act on its own object (file A and B hold different data); after all handles are released a full reader of "
         "file A must return the reference transcript (no retained state). Non-trivial = a stale or foreign id use "
@@ -35,13 +36,17 @@ PARENT = {"aid": "fid", "vs": "fid", "vg": "fid", "gr": "fid", "ri": "gr", "lut"
 FILES = ["combo.hdf", "combo_b.hdf"]
 
 
-def open_call(p, kind, var, parent, fi, mode):
+ETAGS = [1000, 1002, 1003, 1004, 1002, 1000]     # plain, linked-block, compressed, external elements of the combo file
+SELEM = {1002: bytes(range(50))[:40], 1003: (b"ab" * 30)[:40], 1004: bytes(range(16))}
+
+
+def open_call(p, kind, var, parent, fi, mode, etag=1000):
     if kind == "fid":
         return p.call("i", "Hopen", FILES[fi], mode, 0, bind=var)
     if kind == "sd":
         return p.call("i", "SDstart", FILES[fi], mode, bind=var)
     if kind == "aid":
-        return p.call("i", "Hstartread", V(parent), 1000, 1, bind=var)
+        return p.call("i", "Hstartread", V(parent), etag, 1, bind=var)
     if kind == "vs":
         return p.call("i", "hx_vsattach_named", V(parent), "table", bind=var)
     if kind == "vg":
@@ -105,7 +110,23 @@ def nontrivial(labels):
 def strategy_(draw, tier):
     steps = []
     nopen = {}
-    if draw(st.integers(0, 9)) < 7:
+    scen = draw(st.integers(0, 9))
+    if scen >= 8:
+        # directed opening: one open of a file, several access elements on ONE element of it (plain or special),
+        # some of them released again, then Hclose while the others are still attached
+        steps.append(["open", "fid", draw(st.integers(0, 1)), 0, draw(st.sampled_from([1, 3]))])
+        e = draw(st.integers(0, len(ETAGS) - 1))
+        na = draw(st.integers(2, 4))
+        for _ in range(na):
+            steps.append(["open", "aid", 0, 0, 1, e])
+            if draw(st.integers(0, 3)) == 0:
+                steps.append(["use", draw(st.integers(1, na)), draw(st.integers(0, 20))])
+        for _ in range(draw(st.integers(0, na - 1))):
+            steps.append(["release", draw(st.integers(1, na))])      # index 0 is the file itself
+        steps.append(["closefid", 0])
+        nopen["fid"] = 1
+        nopen["aid"] = na
+    elif scen < 6:
         for _ in range(draw(st.integers(2, 3))):
             steps.append(["open", "fid", draw(st.integers(0, 1)), 0, draw(st.sampled_from([1, 1, 3]))])
         nopen["fid"] = 2
@@ -117,9 +138,11 @@ def strategy_(draw, tier):
                 kind = PARENT[kind] if nopen.get(PARENT.get(PARENT[kind]), 1) else "fid"
             nopen[kind] = nopen.get(kind, 0) + 1
             steps.append(["open", kind, draw(st.integers(0, 1)), draw(st.integers(0, 3)),
-                          draw(st.sampled_from([1, 1, 3]))])
-        elif c < 55:
+                          draw(st.sampled_from([1, 1, 3])), draw(st.integers(0, len(ETAGS) - 1))])
+        elif c < 51:
             steps.append(["release", draw(st.integers(0, 60))])
+        elif c < 55:
+            steps.append(["closefid", draw(st.integers(0, 60))])     # Hclose of a file that has attached access elements
         elif c < 75:
             steps.append(["use", draw(st.integers(0, 60)), draw(st.integers(0, 20))])       # valid use of a live id
         else:
@@ -182,7 +205,8 @@ def run_case(case):
         for st_ in case["steps"]:
             k = st_[0]
             if k == "open":
-                _, kind, fi, pick, mode = st_
+                _, kind, fi, pick, mode = st_[:5]
+                etag = ETAGS[st_[5] % len(ETAGS)] if (kind == "aid" and len(st_) > 5) else 1000
                 parent = None
                 if kind in PARENT:
                     cands = live_of(PARENT[kind])
@@ -210,11 +234,19 @@ def run_case(case):
                 if kind == "sd":
                     mode = 1      # SD calls on a read-write handle may legitimately rewrite metadata at SDend
                 ln = open_call(p, kind, var, objs[parent]["var"] if parent is not None else None, fi,
-                               mode if kind in ("fid", "sd") else 1)
+                               mode if kind in ("fid", "sd") else 1, etag)
+                if etag != 1000:
+                    labels.add("aid_on_special")
+                    if any(o["kind"] == "aid" and o["live"] and o.get("etag") == etag and o["file"] == fi
+                           for o in objs):
+                        labels.add("two_aids_one_special")
                 checks.append((ln, "opened", kind))
-                objs.append(dict(kind=kind, var=var, live=True, file=fi, parent=parent, mode=mode))
-            elif k == "release":
+                objs.append(dict(kind=kind, var=var, live=True, file=fi, parent=parent, mode=mode, etag=etag))
+            elif k in ("release", "closefid"):
                 liv = [i for i, o in enumerate(objs) if o["live"] and o["kind"] in RELEASE]
+                if k == "closefid":
+                    liv = [i for i in liv if objs[i]["kind"] == "fid" and
+                           any(objs[j]["kind"] == "aid" for j in children_live(i))]
                 if not liv:
                     continue
                 i = liv[st_[1] % len(liv)]
@@ -256,6 +288,10 @@ def run_case(case):
                 if name in ("Htrunc", "Hwrite", "Hstartread", "GRselect", "ANselect", "SDselect", "GRgetlutid",
                             "SDgetdimid", "Vinitialize"):
                     continue    # would create ids / modify: not used as plain observers
+                if o["kind"] == "aid" and o.get("etag", 1000) != 1000 and name == "Hread":
+                    # special elements: rewind first (a read at the end may fail there), then compare the content
+                    checks.append((p.call("i", "Hseek", V(o["var"]), 0, 0), "ret0", "Hseek of a live access id"))
+                    ident = "selem%d" % o["etag"]
                 ln = build(p, V(o["var"]))
                 checks.append((ln, "valid", (name, failv, ident, o["file"])) +
                               (("C13-an-state-shared-across-opens",) if o["kind"] == "ann" and o["file"] in an_torn
@@ -397,6 +433,11 @@ def check_ident(ident, fi, r, call):
                 return None      # a second read on the same access element is at its end: nothing to compare
             return dict(kind="identifier designates the wrong object (element data of the other file or garbage)",
                         call=call, file=fi, ret=r.ret, observed=r.bufs[0][:8].hex())
+    elif ident.startswith("selem"):
+        want = SELEM[int(ident[5:])]
+        if r.ret != len(want) or r.bufs[0][:len(want)] != want:
+            return dict(kind="identifier designates the wrong object (special element data differ)", call=call,
+                        file=fi, ret=r.ret, observed=r.bufs[0][:8].hex())
     elif ident == "image":
         if fi == 1 and (r.ret != 0 or r.bufs[0] != b"\x42" * 60):
             return dict(kind="identifier designates the wrong image", call=call, file=fi)
